@@ -8,7 +8,7 @@ import random
 import traceback
 
 from . import upj
-from .common import time_limit, ImplTimeout
+from .common import time_limit, ImplTimeout, call_limited
 from .gen import ground_actions
 
 
@@ -68,9 +68,11 @@ def observe(P, depth, cap, mode, seed=0, fresh_env=False):
         rec["skip"] = "kind:" + _exc(ex)
         return rec
     try:
-        with time_limit(30):
-            sim = mk()
-            s0 = sim.get_initial_state()
+        def _init():
+            sim_ = mk()
+            return sim_, sim_.get_initial_state()
+
+        sim, s0 = call_limited(_init, 30, 10)
         rec["init"] = {"built": True, "exc": "none"}
     except ImplTimeout:
         rec["init"] = {"built": False, "exc": "TIMEOUT"}
